@@ -810,6 +810,12 @@ impl<K: El, V: El> Mon<K, V> {
                 self.since_growth = None;
             }
             Kind::Capacity => {
+                // growth that leaves nothing behind is complete at once: a capacity call never
+                // *creates* an empty old table (one left by retain / replace_entry_with may
+                // legitimately survive a reserve that needs no growth)
+                if old1 == Some(0) && old0 != Some(0) {
+                    soft!(self, "C03", "an empty old table is allocated after {} (before: {:?})", enc(), old0);
+                }
                 self.since_growth = None;
             }
             Kind::Other => {
